@@ -406,6 +406,21 @@ def nestings(tier):
                 src += '#define FM(x) (x + 1)\n#define EMPTY\n#ifdef FM\nchar mk6;\n#endif\n#ifndef FM\nchar mk7;\n#endif\n#ifdef EMPTY\nchar mk8;\n#endif\n#undef FM\n#ifdef FM\nchar mk9;\n#endif\n'
             for defs in (['A', 'B=0', 'ZERO=0'], ['A=0', 'B=1', 'ZERO=0'], ['A=0', 'B=0', 'ZERO=0'], ['A', 'B', 'ZERO=0']):
                 progs.append((src, defs))
+    # more macros than one regex batch holds (100), #undef in every batch position, tests around the batch boundaries
+    for N, und in itertools.product((99, 100, 101, 150, 205), ((), (3,), (99,), (100,), (0,), (3, 120), (98, 99, 100, 101))):
+        und = [u for u in und if u < N]
+        xs = sorted({x for x in (0, 1, 2, 3, 4, 50, 97, 98, 99, 100, 101, 102, 119, 120, 121, 149, 199, 200, N - 2, N - 1) if x < N})
+        src = ''.join('#define M%d %d\n' % (k, k % 2) for k in range(N)) + ''.join('#undef M%d\n' % u for u in und)
+        for x in xs:
+            if x in und: src += '#ifdef M%d\nchar mkd%d;\n#else\nchar mku%d;\n#endif\n' % (x, x, x)
+            else: src += '#if M%d\nchar mkt%d;\n#else\nchar mkf%d;\n#endif\n#ifndef M%d\nchar mkn%d;\n#endif\n' % (x, x, x, x, x)
+        progs.append((src, ['A']))
+        # the same with a function-like macro at the batch boundary and definitions coming from the command line
+        src2 = ''.join(('#define M%d(a) (a)\n' % k) if k in (99, 100) else ('#define M%d %d\n' % (k, k % 2)) for k in range(2, N)) + ''.join('#undef M%d\n' % u for u in und if u >= 2)
+        for x in xs:
+            if x in (99, 100) or x in und: src2 += '#ifdef M%d\nchar mkd%d;\n#else\nchar mku%d;\n#endif\n' % (x, x, x)
+            else: src2 += '#if M%d\nchar mkt%d;\n#else\nchar mkf%d;\n#endif\n' % (x, x, x)
+        progs.append((src2, ['M0=0', 'M1=1']))
     return progs
 
 
